@@ -52,7 +52,7 @@ def validate(ctx, wd, evs, tag, invs, prop, keyfn):
 def run(ctx):
     wd = tlc.make_workdir()
     try:
-        worlds = [(1, 0), (3, 1), (5, 2)] if ctx.quick else [(1, 0), (2, 0), (3, 1), (4, 1), (5, 2), (7, 3), (7, 0)]
+        worlds = [(1, 0), (3, 1), (4, 1), (5, 2)] if ctx.quick else [(1, 0), (2, 0), (3, 1), (4, 1), (5, 2), (7, 3), (7, 0), (8, 3), (9, 4)]
         evs = worker(ctx, wd, {'what': 'secfld', 'seed': ctx.seed, 'max_order': 32 if ctx.quick else 64,
                                'max_combos': 260 if ctx.quick else 5000, 'worlds': worlds}, 'secfld', 'C39')
         evs += worker(ctx, wd, {'what': 'setup', 'max_m': 4 if ctx.quick else 7, 'max_t': 2 if ctx.quick else 4}, 'setup', 'C39')
